@@ -109,6 +109,11 @@ def make_form(rng, i):
                 r.cells["bind::odk:custom"] = hz(rng, "bindattr")
             if rng.random() < 0.15:
                 r.cells["bind::mynote"] = rng.choice(["Yes", "no", "true", "FALSE", "yes please", hz(rng, "plainattr")])
+            if rng.random() < 0.1:
+                # attribute names that coincide with keyword names inside pyxform's own node builder
+                r.cells[rng.choice(["bind::tag", "bind::toParseString", "body::toParseString"])] = hz(rng, "kwattr")
+            if rng.random() < 0.05:
+                r.cells["instance::tag"] = hz(rng, "kwinst")
             if rng.random() < 0.2:
                 r.cells["instance::extra"] = hz(rng, "instattr")
             if rng.random() < 0.2:
@@ -407,12 +412,14 @@ def check(ctx, form, sig, fmt="dict", sample=False):
                         ctx.viol("default:markup-injected", f"{e.path}: default {r.cells['default']!r} produced child elements", wit(channel="default"))
                     elif got != exp:
                         ctx.viol("default:text-changed", f"{e.path}: instance node text {got!r}, written {r.cells['default']!r}", wit(channel="default"))
-            for h, attrname, holder in (("bind::odk:custom", "odk:custom", b), ("bind::mynote", "mynote", b), ("body::kb:flag", "kb:flag", c)):
+            for h, attrname, holder in (("bind::odk:custom", "odk:custom", b), ("bind::mynote", "mynote", b), ("body::kb:flag", "kb:flag", c), ("bind::tag", "tag", b),
+                                        ("bind::toParseString", "toParseString", b), ("body::toParseString", "toParseString", c)):
                 if h in r.cells and holder is not None:
                     cmp_attr(h.split("::")[0] + "-attr", f"{e.path} @{attrname}", r.cells[h], p.attr_dict(holder).get(attrname))
-            if "instance::extra" in r.cells:
-                for nnode in p.resolve(e.path)[:1]:
-                    cmp_attr("instance-attr", f"{e.path} @extra", r.cells["instance::extra"], nnode.get("extra"))
+            for ih in ("extra", "tag"):
+                if f"instance::{ih}" in r.cells:
+                    for nnode in p.resolve(e.path)[:1]:
+                        cmp_attr("instance-attr", f"{e.path} @{ih}", r.cells[f"instance::{ih}"], nnode.get(ih))
     # choices
     for inst in p.secondary:
         ln = inst.get("id")
